@@ -187,6 +187,8 @@ def judge(part, mix, interval, script):
     case = {"mix": mix, "interval": interval, "script": [list(s) for s in script]}
     o = run_traced(world, script, interval)
     part.count("runs")
+    if o.get("act") is not None:
+        FINISHED.append((case, o["trace"], len(o["trace"]), o["act"], len(o["act"].actions), len(o["act"].account_status)))
     if o["error"]:
         part.violation(f"C05|run|exception|{o['error'].split(':')[0]}|{interval if interval != '1min' else 'base'}", "the backtest raised", case,
                        {"error": o["error"], "outcomes": [x[:4] for x in o["outcomes"]]})
@@ -347,6 +349,9 @@ def judge(part, mix, interval, script):
     part.sample({"mix": mix, "interval": interval, "script": [list(s) for s in script], "events": len(trace)}, every=97)
 
 
+PER_MARKET = {}
+
+
 def default_labels(world):
     from mc.worlds import catalog
 
@@ -359,6 +364,15 @@ def default_labels(world):
     ops = world.alphabet(ctx)
     good = [o.label for o in ops if not o.deviation][:2]
     badl = [o.label for o in ops if o.deviation and ("over" in o.label or "unknown" in o.label or "NOPE" in o.label)][:1]
+    # per market: its first default operation and its first to-be-refused one (for the refused-then-accepted scripts)
+    PER_MARKET.clear()
+    for o in ops:
+        mk = o.label.split(".")[0]
+        g, b = PER_MARKET.setdefault(mk, [None, None])
+        if not o.deviation and g is None:
+            PER_MARKET[mk][0] = o.label
+        if o.deviation and b is None and any(t in o.label for t in ("over", "unknown", "NOPE", "beyond")):
+            PER_MARKET[mk][1] = o.label
     return good, badl
 
 
@@ -410,6 +424,14 @@ def cases(thorough):
                 out.append((mix, interval, [(0, "on_bar", good[0]), (-2, "finalize", good[-1]), (-2, "rerun", "-")]))
             out.append((mix, interval, [(min(1, n_bars - 1), "on_bar", good[0]), (min(1, n_bars - 1), "notify", good[-1])]))
             out.append((mix, interval, [(0, "after_bar", good[0]), (0, "notify", good[0])]))
+            for mk, (g1, b1) in sorted(PER_MARKET.items()):
+                if g1 is None or b1 is None or mk == "wallet":
+                    continue
+                # a refused operation of a market, then an accepted one of the same market (same bar / next bar / from initialize): the second one is
+                # recorded, stamped and notified like any other
+                out.append((mix, interval, [(0, "on_bar", b1), (0, "after_bar", g1)]))
+                out.append((mix, interval, [(0, "on_bar", b1), (min(1, n_bars - 1), "on_bar", g1)]))
+                out.append((mix, interval, [(-1, "initialize", b1), (0, "before_bar", g1)]))
             if not thorough:
                 g = good[0]
                 for h1, h2 in (("on_bar", "on_bar"), ("after_bar", "before_bar"), ("trigger", "after_bar"), ("initialize", "on_bar"), ("trigger", "trigger")):
@@ -418,11 +440,23 @@ def cases(thorough):
     return out
 
 
+FINISHED = []  # (case, trace, len(trace), actuator, len(actions), len(account_status)) of the runs this worker process has finished
+
+
 def work(args):
     seed, items = args
     part = Part(seed)
     for mix, interval, script in items:
         judge(part, mix, interval, [tuple(s) for s in script])
+        # a finished run stays finished: nothing a LATER run does (with its own strategy, actuator and markets) may fire hooks of an earlier strategy or
+        # add to an earlier run's logs (every hook invocation and every recorded action of a run is an event of THAT run's bars)
+        for case, trace, n_trace, act, n_act, n_rows in FINISHED:
+            part.count("finished_runs_rechecked")
+            if len(trace) != n_trace or len(act.actions) != n_act or len(act.account_status) != n_rows:
+                part.violation("C05|finished-run-changed", "hooks of an already finished run were invoked (or its logs grew) while a later, unrelated run was executing", case,
+                               {"later_run": {"mix": mix, "interval": interval, "script": [list(x) for x in script]}, "extra_events": [str(e[:3]) for e in trace[n_trace:n_trace + 4]],
+                                "actions_before_after": [n_act, len(act.actions)]})
+        del FINISHED[:-3]
     return part.result()
 
 
